@@ -13,6 +13,22 @@ HOOK_COMMITS = ["f98da77"]
 PENDING = {}
 
 PROPS = {
+    "C09": {
+        "module": "ShapeVerif.Props.C09",
+        "theorems": ["ShapeVerif.converge", "ShapeVerif.mergeRep_stable", "ShapeVerif.absorb_meaning_shapes",
+                     "ShapeVerif.absorb_stable", "ShapeVerif.absorbed_upper",
+                     "ShapeVerif.size_independent_of_repetitions"],
+        "statements": {
+            "converge": "d ∈ h → fromSourcesDoc h = ok a → ∀ k, ∃ sk, fromSourcesDoc (h ++ [d]*k) = ok sk ∧ meaningEq sk a ∧ (1 ≤ k → fromSourcesDoc (h ++ [d]*(k+1)) = ok sk)",
+            "absorb_stable": "a.wf → b.wf → isSubset b a → merger (merger a b) b = merger a b",
+            "absorbed_upper": "a.wf → b.wf → isSubset b a → admits (merger a b) x → admits a x",
+        },
+        "partial": ["the property's last clause (size bounded by the structural variety of the sources) is proved in the form it is quantified: the shape, hence its size, does not depend on the number of repetitions (size_independent_of_repetitions); no closed-form bound in terms of variety is claimed"],
+        "rule": "p_c09: for every history (all sequences of length <= 2 over 19 fixed documents + random histories of 1-5 documents) and every document d of it, d is re-fed k=4 (thorough: 16) times; the shape must be identical from the first repetition on, and the printed shapes are compared with the base shape by witnesses of the reference semantics in both directions; plus subset/merger/p_keeps on reachable (sample, accumulator, sample) triples. Non-trivial = history with a container.",
+        "assumptions": [],
+        "level_text": "converge is a Lean theorem over all histories and all k: re-adding a source keeps the meaning (meaningEq) and the shape is literally stable from the first repetition. It composes samples_accepted (C03) with absorb_stable and absorbed_upper, both proved for all well-formed shapes by induction over merger's arms. Only closes on the code after the D6/D7 repairs. merger, is_subset, from_sources are compared with the real code on the reachable domain each run, and stability/meaning are re-evaluated on the real from_sources.",
+        "level_note": "Trusted: Lean kernel; models of merger.rs, subset.rs, shape/mod.rs (differential testing); reference semantics for the meaning comparison (witness search is testing).",
+    },
     "C10": {
         "module": "ShapeVerif.Props.C10",
         "theorems": ["ShapeVerif.subset_refl", "ShapeVerif.subset_as_optional",
@@ -165,6 +181,16 @@ def oracle(pid, ops, impl, tier):
                 prev = (f[1:], shape)
             else:
                 prev = None
+    if pid == "C09":
+        for o, r in zip(ops, impl):
+            f = o.split("\t")
+            if f[0] == "p_c09" and r.startswith("ok "):
+                shapes = [x.replace("_", " ") for x in r[3:].split(" ")]
+                base = shapes[0]
+                for sh in shapes[1:]:
+                    if sh != base:
+                        out.append((f"witness\t{sh}\t{base}", "ok", "re-adding a source must not change which documents are admitted (repeated shape admits more)", o))
+                        out.append((f"witness\t{base}\t{sh}", "ok", "re-adding a source must not change which documents are admitted (repeated shape admits less)", o))
     if pid == "C08":
         for o, r in zip(ops, impl):
             f = o.split("\t")
